@@ -14,6 +14,8 @@ the hand-assembled sum.
      from the boundary conditions, and that same object is returned
  S5  solveMatrixPDE: one solver call with the given (M, RHS); new variable holding the reshaped solution
  S6  every term builder emits rows for interior cells only (ghost rows empty); boundary rows are disjoint from them (C03.B9)
+ S9  sources enter linearly and exactly: linearSourceTerm(beta) contributes beta_P to the diagonal of row P and
+     constantSourceTerm(gamma) contributes gamma_P to its right-hand side - nothing else, nothing rounded
  S7  a variable returned by solveExplicitPDE can be passed to solvePDE (cached boundary term available)
  S8  "the variable's boundary equations" are the current ones: after `BCs.<face>.c = new` on any single face, the
      boundary row handed to the solver carries the new datum (exercises the real dirty-flag properties; see also C09)
@@ -29,7 +31,7 @@ from .c12 import flat_vector
 
 PROP = 'C04'
 RULES = {'S1': 'cached boundary system and terms untouched', 'S2': 'solver system == boundary system + each term once', 'S3': 'one solver call, same system for both solvers',
-         'S4': 'result reshaped (C order), stored in place, ghosts re-imposed, same object returned', 'S5': 'solveMatrixPDE', 'S6': 'term rows are interior rows only',
+         'S4': 'result reshaped (C order), stored in place, ghosts re-imposed, same object returned', 'S5': 'solveMatrixPDE', 'S6': 'term rows are interior rows only', 'S9': 'source terms contribute exactly beta_P / gamma_P',
          'S7': 'explicit-solver result usable by solvePDE', 'S8': 'boundary data edited after construction are the ones solved with (every face)'}
 ASSUMPTIONS = ['spsolve / the external solver return the solution of M x = RHS (direct-solver accuracy not decided)',
                'scipy sparse `+=` rebinds, ndarray `+=` writes in place (kind lattice of the interpreter)',
@@ -209,6 +211,20 @@ def job(args):
                 if not is_zero(wq.vector_at(r, G)):
                     bad.append(F.cstr(G))
         ob('S6', f"{module}.{impl}", not bad, f"entries in ghost rows {bad}" if bad else f"no entries in the {len(ghosts)} ghost-row classes", fi.loc())
+        # S9: "the solution depends linearly on sources and previous-step values": the source builders hand the solver exactly
+        # beta_P on the diagonal / gamma_P on the right-hand side of cell P (no rounding, truncation or cross-cell coupling)
+        if module == 'source':
+            for P in cells:
+                want = Rat.atom(('phi',) + tuple(P))
+                if isinstance(r, ASparse):
+                    row = F.row_by_col(wq, wq.matrix_row(r, P))
+                    kP = tuple(str(c) for c in P)
+                    got = row.get(kP, (None, Rat.const(0)))[1]
+                    others = [k for k, (c, v) in row.items() if k != kP and not is_zero(v)]
+                else:
+                    got, others = wq.vector_at(r, P), []
+                ob('S9', f"{module}.{impl}", is_zero(got - want) and not others,
+                   f"cell {F.cstr(P)}: contributes {fmt_rat(got, 5)}" + (f", off-diagonal {others[:2]}" if others else '') + f" (expected exactly {fmt_rat(want)})", fi.loc())
     # ---- S8: boundary data edited after construction reach the solver, face by face (through the real flag properties)
     from ..model import FACES
     from ..alg import atom_key
